@@ -17,7 +17,11 @@ RULE = ("valid (reference, estimate) pairs per task on the exact 1/32 s lattice 
         "metric functions with the real ones; non-trivial = both sides non-empty")
 ASSUMPTIONS = ["theorems are about the Lean model; they transfer to the code where the correspondence suites agree",
                "binary64 on the exact lattice performs the modelled rational comparisons exactly"]
-UNPROVED = []
+UNPROVED = [
+    "C06.Segment (entropy-based scores): NMI / AMI symmetry and NCE / V over<->under are theorems about the "
+    "real-number reading of the model; that binary64 summation in the exchanged order stays within 1e-9 is "
+    "checked by the swap oracle, not proved",
+]
 SUITES, _classifiers = SU.load_all()
 CHECKERS, ORACLES = _relational.make(R.check_swap, self_inputs=False)
 _xc, _xo = _relational.extra(PID)
